@@ -6,6 +6,8 @@ from sa import rules_r6b as R6B
 from sa import report, rules_order as RO, rules_state as RS
 from sa import rules_extra as RX
 
+from sa import rules_r12 as R12
+
 
 def run(ctx, repo):
     ctx.explanation = (
@@ -36,6 +38,7 @@ def run(ctx, repo):
     XL.reader_positions(ctx, repo)
     ctx.call(R6B.r_refill_exact, repo)
 
+    ctx.call(R12.r_component_methods_disjoint, repo)
 
 if __name__ == '__main__':
     sys.exit(report.main('C18', 'other', run))
